@@ -13,7 +13,7 @@ LEVEL_TEXT = ("Grid of idle_timeout / D and idle_timeout / T ratios in {0.1 .. 1
 LEVEL_NOTE = "In-process stack with SQLite persistence; restart = emulated process death (fresh runtime + server over the same file). Trusted: virtual clock, shims."
 DESIGN_REF = "§5 C14"
 RULE = "case = (timer kind, D or T, idle_timeout, restart instant); distinct = hash of the scenario; non-trivial = a release or restart happened while the timer was pending"
-REQUIRED_REACH = ["scenario", "timer_waiter_timeout", "timer_retry_delay", "released_while_timer_pending", "restart_while_timer_pending", "finished", "timer_waiter_chain", "timer_timeout_then_restart"]
+REQUIRED_REACH = ["scenario", "timer_waiter_timeout", "timer_retry_delay", "released_while_timer_pending", "restart_while_timer_pending", "finished", "timer_waiter_chain", "timer_timeout_then_restart", "timer_fired_timeout_then_reload"]
 ASSUMPTIONS = []
 
 
@@ -27,9 +27,19 @@ def gen_case(seed):
     from vf import idle_cases as ic
 
     rnd = random.Random(seed)
-    kind = rnd.choice(["waiter_timeout", "retry_delay", "waiter_chain", "timeout_then_restart"])
+    kind = rnd.choice(["waiter_timeout", "retry_delay", "waiter_chain", "timeout_then_restart", "fired_timeout_then_reload"])
     dur = rnd.choice([2.0, 5.0, 10.0])
     ratio = rnd.choice([0.1, 0.25, 0.5, 2.0, 10.0])
+    if kind == "fired_timeout_then_reload":
+        # the waiter timeout FIRES in memory and the same invocation goes on to wait for the human; the run is then released for
+        # idleness (or the server restarts) and only afterwards the answer arrives: the reloaded step re-runs from the top and must
+        # get its TimeoutError for the first wait again
+        dur = rnd.choice([1.0, 2.0])
+        spec, keys = ic.gen_program(rnd, n=1, escalate=dur)
+        spec["sched_seed"] = seed
+        how = rnd.choice(["idle_release", "restart"])
+        return {"seed": seed, "kind": kind, "dur": dur, "I": dur * 3 if how == "idle_release" else 1000.0, "spec": spec, "keys": keys,
+                "restart": "after_fired" if how == "restart" else None, "restart_frac": 0.5, "answer_at": 1.0 + dur * 3 + dur + 5.0}
     if kind == "timeout_then_restart":
         # the waiter timeout fires in memory (idle_timeout is longer), the step is still busy handling it when the server restarts:
         # the TimeoutError must still take effect after the restart
@@ -70,7 +80,11 @@ def run_one(case, acc):
     if kind == "waiter_chain" and case.get("answer_first"):
         # the first wait is answered (not timed out) a little before its timeout
         sends = [{"at": 1.0 + dur * 0.75, "pay": {"key": k}} for k in case["keys"]]
+    if kind == "fired_timeout_then_reload":
+        sends = [{"at": case["answer_at"], "pay": {"key": k}} for k in case["keys"]]
     restarts = []
+    if case["restart"] == "after_fired":
+        restarts = [1.0 + dur + 2.0]   # the timeout has fired, the run sits in its second wait
     if case["restart"] == "after_timeout":
         # items sleep <= 1 s before waiting; the timeout fires at <= 1 + dur (+ latencies); restart inside the busy stretch after it
         restarts = [1.0 + dur + case["busy"] * case["restart_frac"]]
@@ -87,7 +101,7 @@ def run_one(case, acc):
         return
     final = obs["phases"][-1]["h"]
     pending_release = [r for r in obs["releases"] if r.get("reason") == "idle_release" and
-                       (("TickWaiterTimeout" in r.get("wakeups", [])) if kind in ("waiter_timeout", "waiter_chain", "timeout_then_restart") else ("TickAddEvent" in r.get("wakeups", [])))]
+                       (("TickWaiterTimeout" in r.get("wakeups", [])) if kind in ("waiter_timeout", "waiter_chain", "timeout_then_restart", "fired_timeout_then_reload") else ("TickAddEvent" in r.get("wakeups", [])))]
     if pending_release:
         acc.hit("released_while_timer_pending")
     if restarts:
